@@ -51,7 +51,7 @@ def run_components(run, components, tier=None, proofs_ok=True):
         t = tier or run.tier
         if not proofs_ok and c.get('escalate', True):
             t = 'thorough'
-        ok, out, stats = vflib.run_harness(name, t, run.seed, run.rundir, timeout=c.get('timeout', 3000))
+        ok, out, stats = vflib.run_harness(name, t, run.seed, run.rundir, extra=c.get('extra', ()), timeout=c.get('timeout', 3000))
         if not ok:
             run.oblige('harness_run(%s)' % name, False, out[-2000:])
             continue
